@@ -351,7 +351,7 @@ class BioSeq():
         """
         self.reverse().complement()
         if update_fts:
-            self.fts = self.fts.rc(lenseq=len(self))
+            self.fts = self.fts.rc(seqlen=len(self))
         return self
 
     def __getitem__(self, index):
